@@ -7,15 +7,13 @@ Lemma isqrt_exact args : in_domain OIsqrt args = true -> s_out OIsqrt args = Som
 Proof.
   cbn [in_domain]. destruct args as [|[a|a| |] [|? ?]]; try discriminate; intros Hd;
     unfold s_out; cbn [denotes denote m_op m_isqrt s_op fst snd]; f_equal; f_equal.
-  - apply andb_true_iff in Hd. destruct Hd as [H64 H52]. rewrite H52.
-    destruct (Z.ltb_spec a 0) as [Hn|Hp]; [reflexivity|].
+  - destruct (Z.ltb_spec a 0) as [Hn|Hp]; [reflexivity|].
     assert (I : in64 (Z.sqrt a) = true).
-    { apply in64_spec in H64. apply in64_spec. pose proof (Z.sqrt_nonneg a). pose proof (Z.sqrt_le_lin a Hp).
+    { apply in64_spec in Hd. apply in64_spec. pose proof (Z.sqrt_nonneg a). pose proof (Z.sqrt_le_lin a Hp).
       unfold two63 in *. lia. }
     unfold canon_int. rewrite I. reflexivity.
-  - apply andb_true_iff in Hd. destruct Hd as [Hp Hb]. apply Z.leb_le in Hp.
-    destruct (Z.ltb_spec a 0) as [Hn|_]; [lia|].
-    unfold canon_int. apply negb_true_iff in Hb. rewrite Hb. reflexivity.
+  - destruct (Z.ltb_spec a 0) as [Hn|Hp]; [reflexivity|]. cbn [orb] in Hd.
+    unfold canon_int. apply negb_true_iff in Hd. rewrite Hd. reflexivity.
 Qed.
 Lemma isqrt_value_exact args :
   value_domain OIsqrt args = true ->
@@ -37,6 +35,8 @@ Proof.
 Qed.
 Lemma isqrt_examples :
   in_domain OIsqrt [VFix 21] = true /\ in_domain OIsqrt [VFix (-9)] = true /\
+  in_domain OIsqrt [VFix 4611686018427387903] = true /\ in_domain OIsqrt [VBig (-100000000000000000000)] = true /\
+  m_op OIsqrt [VFix 4611686018427387903] = {| o_res := RVal (VFix 2147483647); o_args := [VFix 4611686018427387903] |} /\
   in_domain OIsqrt [VBig 100000000000000000000] = false /\ value_domain OIsqrt [VBig 100000000000000000000] = true /\
   in_domain OIsqrt [VBig 1361129467683753853853498429727072845824] = true /\
   m_op OIsqrt [VBig 100000000000000000000] = {| o_res := RVal (VBig 10000000000); o_args := [VBig 100000000000000000000] |} /\
